@@ -177,6 +177,10 @@ func (k Keeper) FeeRefund(ctx context.Context, hashId []byte, amt math.Int) erro
 		amtDec := math.LegacyNewDecFromInt(amt)
 		shareAmtDec := sourceAmountDec.Mul(amtDec).Quo(trackedFeesTotalDec)
 		shareAmt := shareAmtDec.TruncateInt()
+		// a share that rounds down to nothing must not be delegated: the staking module would create a delegation with zero shares
+		if shareAmt.IsZero() {
+			continue
+		}
 		_, err = k.stakingKeeper.Delegate(ctx, sdk.AccAddress(source.DelegatorAddress), shareAmt, stakingtypes.Bonded, val, false)
 		if err != nil {
 			return err
@@ -215,6 +219,10 @@ func (k Keeper) GetBondedValidators(ctx context.Context, max uint32) ([]stakingt
 // TODO: this should be in dispute module, no reason for it to be in reporter module
 // Stakes a given amount of tokens to a BONDED validator from a given address
 func (k Keeper) AddAmountToStake(ctx context.Context, acc sdk.AccAddress, amt math.Int) error {
+	// nothing to stake: delegating zero would create a delegation with zero shares
+	if !amt.IsPositive() {
+		return nil
+	}
 	vals, err := k.GetBondedValidators(ctx, 1)
 	if err != nil {
 		return err
